@@ -214,6 +214,7 @@ struct ShapeRun<'a> {
     /// per height of the ingesting block: answers and tree before its ingestion began
     refs: HashMap<u32, (observe::Obs, Vec<H32>)>,
     unsliced_fp: u128,
+    unsliced_obs: observe::Obs,
     pos_fp: HashMap<(u32, usize, usize, usize), u128>,
     opts: ObsOpts,
 }
@@ -355,6 +356,86 @@ fn run_sequence(sr: &mut ShapeRun, budgets: &[u64], out: &mut Out) -> usize {
     rounds
 }
 
+/// An upgrade at every pause position (budget 1 per round up to the k-th pause, then
+/// pre_upgrade / post_upgrade): the answers at the pause are the same before and after the
+/// upgrade, ingestion then runs to completion, and the final answers equal those of the
+/// unsliced run.
+fn upgrade_at_pauses(sr: &ShapeRun, m: usize, out: &mut Out) {
+    for k in 1..m {
+        let mut w = setup(sr.shape);
+        let reply_block = offer(&w);
+        let hist = |stage: &str| json!({"shape": sr.shape.name, "budgets": vec![1u64; k], "then": "upgrade", "stage": stage});
+        let mut ok = true;
+        for _ in 0..k {
+            if !work_pending(&w) {
+                break;
+            }
+            if let Err(p) = w.heartbeat_with(Some(complete_reply(vec![reply_block.clone()], vec![])), Some(1)) {
+                out.set_history(hist("before the upgrade"));
+                out.violation("heartbeat-trap", None, json!({"panic": p}));
+                ok = false;
+                break;
+            }
+        }
+        if !ok || !w.is_ingesting() {
+            continue;
+        }
+        out.transitions += 1;
+        let before = observe::observe(&w, &sr.opts);
+        if let Err(p) = w.upgrade(None) {
+            out.set_history(hist("upgrade"));
+            out.violation("upgrade-trap-at-pause", None, json!({"panic": p}));
+            continue;
+        }
+        out.count("upgrades_at_a_pause");
+        let after = observe::observe(&w, &sr.opts);
+        let d = observe::diff(&before, &after);
+        if !d.is_empty() {
+            let only_len = d.iter().all(|x| x == "info.utxos_length");
+            out.set_history(hist("right after the upgrade"));
+            out.violation(
+                "answer-changed-by-upgrade-at-pause",
+                if only_len { Some("F6") } else { None },
+                json!({"differing_probes": d.iter().take(8).collect::<Vec<_>>(), "n_differing": d.len(),
+                       "before": d.first().and_then(|x| before.get(x)), "after": d.first().and_then(|x| after.get(x))}),
+            );
+        }
+        // ingestion resumes and completes
+        let mut rounds = 0;
+        while work_pending(&w) && rounds < 8 {
+            if let Err(p) = w.heartbeat_with(Some(complete_reply(vec![reply_block.clone()], vec![])), None) {
+                out.set_history(hist("resuming after the upgrade"));
+                out.violation("heartbeat-trap-after-upgrade-at-pause", None, json!({"panic": p}));
+                ok = false;
+                break;
+            }
+            rounds += 1;
+        }
+        if !ok {
+            continue;
+        }
+        if work_pending(&w) {
+            out.set_history(hist("resuming after the upgrade"));
+            out.violation("not-finished-after-upgrade-at-pause", None, json!({"rounds": rounds}));
+            continue;
+        }
+        let fin = observe::observe(&w, &sr.opts);
+        let d = observe::diff(&sr.unsliced_obs, &fin);
+        if !d.is_empty() {
+            let only_len = d.iter().all(|x| x == "info.utxos_length");
+            out.set_history(hist("after completion"));
+            out.violation(
+                "final-answers-differ-from-unsliced-run-after-upgrade-at-pause",
+                if only_len { Some("F6") } else { None },
+                json!({"differing_probes": d.iter().take(8).collect::<Vec<_>>(), "n_differing": d.len(),
+                       "unsliced": d.first().and_then(|x| sr.unsliced_obs.get(x)), "this_run": d.first().and_then(|x| fin.get(x))}),
+            );
+        } else {
+            out.count("upgrade_at_pause_runs_completed_with_identical_answers");
+        }
+    }
+}
+
 /// Fingerprint of a paused state with the per-round statistics masked.
 fn full_fingerprint_paused() -> u128 {
     full_fingerprint()
@@ -396,10 +477,12 @@ fn run_shape(shape: &Shape, max_m: usize, rep_out: &mut Out) -> Value {
         out.violation("machinery:unsliced-run-incomplete", None, json!({"shape": shape.name}));
     }
     let unsliced_fp = full_fingerprint();
+    let unsliced_obs = observe::observe(&wu, &opts);
     let mut sr = ShapeRun {
         shape,
         refs,
         unsliced_fp,
+        unsliced_obs,
         pos_fp: HashMap::new(),
         opts,
     };
@@ -419,6 +502,9 @@ fn run_shape(shape: &Shape, max_m: usize, rep_out: &mut Out) -> Value {
                 out.violation("more-rounds-than-call-sites", None, json!({"used": used, "m": m}));
             }
         });
+    }
+    if m <= max_m {
+        upgrade_at_pauses(&sr, m, &mut out);
     }
     out.add("budget_sequences", n);
     out.add("distinct_pause_positions", sr.pos_fp.len() as u64);
@@ -456,10 +542,11 @@ pub fn run(tier: &str) -> i32 {
         rep.out.merge(o);
         rep.parts.push(v);
     }
-    rep.rule = "for each block shape, all compositions of the m slicing call sites into per-round budgets >= 1 (2^(m-1) schedules), each driven through the real heartbeat() with a source that always offers a further valid block; at the first visit of every pause position the complete probe set is compared with the answers before ingestion began, later visits must reach the identical state; the final state must equal the unsliced run".into();
+    rep.rule = "for each block shape, all compositions of the m slicing call sites into per-round budgets >= 1 (2^(m-1) schedules), each driven through the real heartbeat() with a source that always offers a further valid block; at the first visit of every pause position the complete probe set is compared with the answers before ingestion began, later visits must reach the identical state; the final state must equal the unsliced run; plus an upgrade at every pause position (answers unchanged by it, ingestion completes, final answers equal the unsliced run)".into();
     rep.bounds = json!({"tier": tier, "max_call_sites": max_m, "shapes": shapes.len()});
     rep.assume("budgets are expressed in slicing call sites (one per input and per output), the only points where the code can pause");
     rep.assume("block_ingestion_stats and histograms are masked in fingerprints: they legitimately record the number of rounds");
+    rep.floor("upgrades_at_a_pause", 30);
     rep.floor("pauses_inside_input_loop", 10);
     rep.floor("pauses_between_inputs_and_outputs", 10);
     rep.floor("pauses_inside_output_loop", 100);
